@@ -4,6 +4,11 @@ import (
 	"bytes"
 	"encoding/json"
 	"fmt"
+	"github.com/brutella/hc"
+	"math"
+	"os"
+	"path/filepath"
+	"strconv"
 	"strings"
 	"time"
 
@@ -175,8 +180,8 @@ func c14WellFormed(j []byte) string {
 		return "no-accessories-array"
 	}
 	posInt := func(r json.RawMessage) bool {
-		var n float64
-		return r != nil && json.Unmarshal(r, &n) == nil && n >= 1 && n == float64(uint64(n))
+		n, err := strconv.ParseUint(strings.TrimSpace(string(r)), 10, 64) // exact: ids up to 2^64−1 are legal
+		return r != nil && err == nil && n >= 1
 	}
 	str := func(r json.RawMessage) bool {
 		var s string
@@ -258,7 +263,7 @@ func c14Run(c *fw.Ctx) {
 	}
 	c14Histories(c)
 	tmpls := c14Templates()
-	idAlpha := []uint64{0, 1, 2, 3, 7}
+	idAlpha := []uint64{0, 1, 2, 3, 7, math.MaxUint64}
 	idx := 0
 	// depth 1 and 2 over all templates
 	for _, a := range tmpls {
@@ -468,6 +473,66 @@ func c14Run(c *fw.Ctx) {
 		}
 		c.Class("remove")
 	}
+	// a start that fails (rejected setup code) and a second start with the SAME accessory objects: the database served
+	// afterwards is the one of a clean start
+	for ti, t := range tmpls {
+		idx++
+		if !c.Mine(idx) || ti%7 != 0 {
+			continue
+		}
+		c.Eval(1)
+		cas := c14Case{Tmpls: []string{"failed-start-then-retry:" + t.Name}}
+		if p := guard(func() {
+			dir := filepath.Join(c.Scratch, fmt.Sprintf("c14-retry-%d", ti))
+			defer os.RemoveAll(dir)
+			build := func() []*accessory.Accessory {
+				return []*accessory.Accessory{accessory.NewBridge(accessory.Info{Name: "Br", SerialNumber: "1"}).Accessory, t.Build(0), accessory.NewSwitch(accessory.Info{Name: "Sw", SerialNumber: "2"}).Accessory}
+			}
+			serve := func(as []*accessory.Accessory) []byte {
+				cont := accessory.NewContainer()
+				for _, a := range as {
+					cont.AddAccessory(a)
+				}
+				j, _ := json.Marshal(cont)
+				return j
+			}
+			retry := build()
+			if _, err := hc.NewIPTransport(hc.Config{StoragePath: dir, Pin: "12345678"}, retry[0], retry[1:]...); err == nil {
+				return // the trivial code was accepted: C20's business
+			}
+			if _, err := hc.NewIPTransport(hc.Config{StoragePath: dir, Pin: "00102003"}, retry[0], retry[1:]...); err != nil {
+				c.Report("retry-after-failed-start/second-start-fails", "second start with a valid code fails: "+err.Error(), cas)
+				return
+			}
+			clean := build()
+			if _, err := hc.NewIPTransport(hc.Config{StoragePath: dir + "-clean", Pin: "00102003"}, clean[0], clean[1:]...); err != nil {
+				return
+			}
+			defer os.RemoveAll(dir + "-clean")
+			ids := func(as []*accessory.Accessory) string {
+				var b strings.Builder
+				for _, a := range as {
+					fmt.Fprintf(&b, "a%d:", a.ID)
+					for _, sv := range a.Services {
+						fmt.Fprintf(&b, "s%d(", sv.ID)
+						for _, ch := range sv.Characteristics {
+							fmt.Fprintf(&b, "%d,", ch.ID)
+						}
+						b.WriteString(")")
+					}
+					b.WriteString(" ")
+				}
+				return b.String()
+			}
+			if got, want := ids(retry), ids(clean); got != want {
+				c.Report("retry-after-failed-start/ids-differ", fmt.Sprintf("after a start that was refused (trivial setup code) and a second start with the same accessory objects the ids are %s; a clean start gives %s", trunc([]byte(got), 200), trunc([]byte(want), 200)), cas)
+			}
+			_ = serve
+		}); p != nil {
+			c.Report("panic/retry-after-failed-start", fmt.Sprintf("%v", p), cas)
+		}
+		c.Class("retry-after-failed-start")
+	}
 	// large deterministic compositions
 	for _, n := range []int{40, 150} {
 		idx++
@@ -492,7 +557,7 @@ func init() {
 	fw.Register(&fw.Check{
 		ID:    "C14",
 		Level: "exploration",
-		Rule:  "exhaustive enumeration of container compositions: templates = every accessory constructor of the library plus a custom accessory per service constructor × {plain, hidden, primary, linked}; explicit id ∈ {auto,1,2,3,7}; all single accessories, all pairs (quick: first element restricted to library accessories and every 8th custom one), all triples over a reduced template set, two large compositions (40, 150 accessories), for every service constructor an accessory rebuilt with a previously published service object, accessories JSON-encoded before being added, services without characteristics in every position, and removal of rejected / member accessories followed by another add. Each container is built twice. Oracle: accepted accessories have pairwise distinct non-zero ids, instance ids distinct and non-zero per accessory, both builds give byte-identical JSON, JSON is well-formed HAP (aid/iid/type everywhere, valid format, permissions within the HAP vocabulary, linked ids resolvable). distinct_nontrivial = distinct (size, accepted count, id-mode tuple) classes Plus every history of length ≤4 (thorough ≤6) over 10 construction operations on one container (add A / B / C with explicit id, remove A / B, add services S1, S2 to A and S3 to B while under construction, link S1→S2 and S2→S1): after every operation the member list, id uniqueness and JSON well-formedness hold and the same history on fresh objects gives the same database. Plus, in a subprocess built with a scheduling point before EVERY statement of hc's packages (textual insertion through go build -overlay): every interleaving with at most 1 (thorough 2) preemptions of pairs of operations on disjoint objects — and, where the property is about served requests, of pairs of handlers on two verified connections of one accessory touching different characteristics — each side must observe exactly what it observes when the two run one after the other (module-level mutable state is what makes them differ).",
+		Rule:  "exhaustive enumeration of container compositions: templates = every accessory constructor of the library plus a custom accessory per service constructor × {plain, hidden, primary, linked}; explicit id ∈ {auto,1,2,3,7,2^64−1}; all single accessories, all pairs (quick: first element restricted to library accessories and every 8th custom one), all triples over a reduced template set, two large compositions (40, 150 accessories), for every service constructor an accessory rebuilt with a previously published service object, accessories JSON-encoded before being added, services without characteristics in every position, and removal of rejected / member accessories followed by another add. Each container is built twice. Oracle: accepted accessories have pairwise distinct non-zero ids, instance ids distinct and non-zero per accessory, both builds give byte-identical JSON, JSON is well-formed HAP (aid/iid/type everywhere, valid format, permissions within the HAP vocabulary, linked ids resolvable). distinct_nontrivial = distinct (size, accepted count, id-mode tuple) classes Plus every history of length ≤4 (thorough ≤6) over 10 construction operations on one container (add A / B / C with explicit id, remove A / B, add services S1, S2 to A and S3 to B while under construction, link S1→S2 and S2→S1): after every operation the member list, id uniqueness and JSON well-formedness hold and the same history on fresh objects gives the same database. Plus, in a subprocess built with a scheduling point before EVERY statement of hc's packages (textual insertion through go build -overlay): every interleaving with at most 1 (thorough 2) preemptions of pairs of operations on disjoint objects — and, where the property is about served requests, of pairs of handlers on two verified connections of one accessory touching different characteristics — each side must observe exactly what it observes when the two run one after the other (module-level mutable state is what makes them differ).",
 		Run:   c14Run,
 		Replay: func(c *fw.Ctx, raw json.RawMessage) {
 			var cas c14Case
@@ -527,7 +592,7 @@ func init() {
 // Operation histories over one container: every sequence of construction operations up to a depth, the container
 // invariants after every operation, and the same history replayed on fresh objects must give the same database.
 
-var c14Ops = []string{"add(A)", "add(B)", "add(C#2)", "remove(A)", "remove(B)", "A.AddService(S1)", "A.AddService(S2)", "B.AddService(S3)", "S1.AddLinkedService(S2)", "S2.AddLinkedService(S1)"}
+var c14Ops = []string{"add(A)", "add(B)", "add(C#2)", "add(D#max)", "remove(A)", "remove(B)", "A.AddService(S1)", "A.AddService(S2)", "B.AddService(S3)", "S1.AddLinkedService(S2)", "S2.AddLinkedService(S1)"}
 
 type c14World struct {
 	cont    *accessory.Container
@@ -544,6 +609,7 @@ func c14NewWorld() *c14World {
 	w.acc["A"] = accessory.New(accessory.Info{Name: "A"}, accessory.TypeOther)
 	w.acc["B"] = accessory.New(accessory.Info{Name: "B"}, accessory.TypeOther)
 	w.acc["C#2"] = accessory.New(accessory.Info{Name: "C", ID: 2}, accessory.TypeOther)
+	w.acc["D#max"] = accessory.New(accessory.Info{Name: "D", ID: math.MaxUint64}, accessory.TypeOther)
 	w.svc["S1"] = service.NewSwitch().Service
 	w.svc["S2"] = service.NewOutlet().Service
 	w.svc["S3"] = service.NewLightbulb().Service
